@@ -22,6 +22,9 @@
     the element callback of `rArrayICb` is `intCb .i8 ty Arg.i`; the theorems are stated
     for `intCb` and therefore hold for all three.
     float kinds: `rParamFCb = rArrayFElem = fltCb`.  options: `rOptionCb = rArrayOptionElem = optCb`.
+  * fields / variables of the other C integer types (`unsigned short`, `unsigned`, `long`,
+    `unsigned long`): `intCbW` of Param/Wide.lean, a conservative extension of `intCb`
+    (`intCbW_eq_intCb`); theorems `…_int_wide` at the end of this file.
   * array forms: `arrCb elem …` with the element callbacks above; `array_applies_element_callback`
     transfers every scalar theorem to the addressed element.
 -/
@@ -29,6 +32,7 @@ import RtoscModel.Proofs.ParamLemmas
 import RtoscModel.Proofs.ParamDelivery
 import RtoscModel.Proofs.ParamDeliveryArr
 import RtoscModel.Proofs.ParamWalkBridge
+import RtoscModel.Proofs.ParamWide
 namespace Rtosc.Param
 open Rtosc
 
@@ -774,6 +778,159 @@ example :
     some [(.port [0], some [47, 115, 117, 98, 47], []),
           (.port [0, 0], some [47, 115, 117, 98, 47, 100, 101, 101, 112, 49, 47], [0]),
           (.port [0, 0, 1], some exWalkAddr, [0, 0])] := by decide +kernel
+
+
+/-! ## every C integer type: `unsigned short`, `unsigned`, `long`, `unsigned long` fields
+
+  `intCbW` (Param/Wide.lean) is the integer callback for a `var` / field of any C integer type;
+  on the four types of `IntTy` it is `intCb` (`intCbW_eq_intCb`), so the theorems of this
+  section contain the `…_int` theorems above.  New for the wide types: the comparison of
+  `rLIMIT` is made in `decltype(var+0)`, and messages carry the low 32 bits of a value. -/
+
+/-- **stored_is_clamped**, every C integer type: hypotheses as in `stored_is_clamped_int`, and
+    the declared bounds are values of the promoted type of `var` (for `unsigned` / `unsigned long`
+    variables: not negative — see `limitIntW_clamps_counterexample`; always true for the types
+    below `int` and for `int`, `long`). -/
+theorem stored_is_clamped_int_wide (varTy storeTy : CTy) (tag : Int → Arg) (pm : Meta.Ptr) (loc : Bytes)
+    (old raw new : Int) (a : Arg) (args : List Arg) (lo hi : Option Int) (ev : List Event)
+    (harg : argI a = .ok raw) (hraw : varTy.InRange raw) (hsub : varTy.Sub storeTy)
+    (hmn : bound atoi pm kMin = .ok lo) (hmx : bound atoi pm kMax = .ok hi)
+    (hlo : ∀ l, lo = some l → varTy.prom.InRange l ∧ l ≤ varTy.max)
+    (hhi : ∀ h, hi = some h → varTy.prom.InRange h ∧ varTy.min ≤ h)
+    (hord : ∀ l h, lo = some l → hi = some h → l ≤ h)
+    (hres : intCbW varTy storeTy tag pm loc old (a :: args) = .ok (new, ev)) :
+    (∀ l, lo = some l → raw < l → new = l) ∧
+    (∀ h, hi = some h → h < raw → new = h) ∧
+    ((∀ l, lo = some l → l ≤ raw) → (∀ h, hi = some h → raw ≤ h) → new = raw) := by
+  obtain ⟨hnew, _⟩ := intCbW_set_result varTy storeTy tag pm loc old raw new a args lo hi ev harg hsub hmn hmx hres
+  rw [CTy.wrap_of_inRange _ _ hraw, limitIntW_eq_limit varTy lo hi raw hraw hlo hhi hord] at hnew
+  have hc := limit_clamps intOps intOps_ordered lo hi raw (by
+    intro l h hl hh
+    have := hord l h hl hh
+    simp [intOps]; omega)
+  rw [← hnew] at hc
+  refine ⟨fun l hl hlt => hc.below l hl (by simp [intOps]; omega),
+          fun h hh hlt => hc.above h hh (by simp [intOps]; omega),
+          fun h1 h2 => hc.inside (fun l hl => by have := h1 l hl; simp [intOps]; omega)
+                                 (fun h hh => by have := h2 h hh; simp [intOps]; omega)⟩
+
+/-- whatever the declared bounds are, the stored value is a value of the type of `var`; if the
+    incoming value is an OSC integer it also is one (so messages carry it unchanged) -/
+theorem stored_int_in_var_type_wide (varTy storeTy : CTy) (tag : Int → Arg) (pm : Meta.Ptr) (loc : Bytes)
+    (old raw new : Int) (a : Arg) (args : List Arg) (ev : List Event)
+    (harg : argI a = .ok raw) (hsub : varTy.Sub storeTy)
+    (hres : intCbW varTy storeTy tag pm loc old (a :: args) = .ok (new, ev)) :
+    varTy.InRange new := by
+  simp only [intCbW, harg, bind, Except.bind] at hres
+  split at hres
+  · cases hres
+  · rename_i lo hmn
+    split at hres
+    · cases hres
+    · rename_i hi hmx
+      simp only [pure, Except.pure, Except.ok.injEq, Prod.mk.injEq] at hres
+      have hvr := limitIntW_inRange varTy lo hi _ (CTy.wrap_inRange varTy raw)
+      rw [← hres.1, CTy.wrap_of_inRange _ _ (hsub.inRange hvr)]
+      exact hvr
+
+/-- **query**, every C integer type: the reply carries the low 32 bits of the stored value — the
+    value itself when it is an OSC integer — and nothing changes -/
+theorem query_replies_and_preserves_int_wide (varTy storeTy : CTy) (tag : Int → Arg) (pm : Meta.Ptr)
+    (loc : Bytes) (old : Int) :
+    intCbW varTy storeTy tag pm loc old [] = .ok (old, [reply loc [tag (w32 old)]]) ∧
+    (IntTy.i32.InRange old → intCbW varTy storeTy tag pm loc old [] = .ok (old, [reply loc [tag old]])) := by
+  refine ⟨rfl, fun h => by simp [intCbW, w32_of_inRange old h]⟩
+
+/-- **change_is_broadcast**, every C integer type -/
+theorem change_is_broadcast_int_wide (varTy storeTy : CTy) (tag : Int → Arg) (pm : Meta.Ptr) (loc : Bytes)
+    (old raw new : Int) (a : Arg) (args : List Arg) (lo hi : Option Int) (ev : List Event)
+    (harg : argI a = .ok raw) (hsub : varTy.Sub storeTy)
+    (hmn : bound atoi pm kMin = .ok lo) (hmx : bound atoi pm kMax = .ok hi)
+    (hres : intCbW varTy storeTy tag pm loc old (a :: args) = .ok (new, ev)) :
+    ev.getLast? = some (broadcast loc [tag (w32 new)]) ∧
+    (IntTy.i32.InRange new → ev.getLast? = some (broadcast loc [tag new])) := by
+  obtain ⟨_, hev⟩ := intCbW_set_result varTy storeTy tag pm loc old raw new a args lo hi ev harg hsub hmn hmx hres
+  refine ⟨by rw [hev]; simp, fun h => by rw [hev, w32_of_inRange new h]; simp⟩
+
+/-- **undo_event_iff_changed**, every C integer type: exactly one event iff the stored value
+    changed; it carries the low 32 bits of the previous and of the new value — the values
+    themselves when they are OSC integers. -/
+theorem undo_event_iff_changed_int_wide (varTy storeTy : CTy) (tag : Int → Arg) (pm : Meta.Ptr) (loc : Bytes)
+    (old raw new : Int) (a : Arg) (args : List Arg) (lo hi : Option Int) (ev : List Event)
+    (harg : argI a = .ok raw) (hsub : varTy.Sub storeTy)
+    (hold : varTy.InRange old) (hloc : loc ≠ undoAddr)
+    (hmn : bound atoi pm kMin = .ok lo) (hmx : bound atoi pm kMax = .ok hi)
+    (hres : intCbW varTy storeTy tag pm loc old (a :: args) = .ok (new, ev)) :
+    undoEvents ev = (if new ≠ old then [reply undoAddr [.s loc, tag (w32 old), tag (w32 new)]] else []) ∧
+    (IntTy.i32.InRange old → IntTy.i32.InRange new →
+      undoEvents ev = if new ≠ old then [reply undoAddr [.s loc, tag old, tag new]] else []) := by
+  obtain ⟨hnew, hev⟩ := intCbW_set_result varTy storeTy tag pm loc old raw new a args lo hi ev harg hsub hmn hmx hres
+  have h1 : undoEvents ev = (if new ≠ old then [reply undoAddr [.s loc, tag (w32 old), tag (w32 new)]] else []) := by
+    rw [hev, CTy.wrap_of_inRange _ _ hold]
+    exact undoEvents_set intOps old new loc _ _ _ hloc (by simp [intOps]; omega)
+  refine ⟨h1, fun ho hn => ?_⟩
+  rw [h1, w32_of_inRange old ho, w32_of_inRange new hn]
+
+/-! ### finding: a negative declared bound of an unsigned variable -/
+
+/-- full statement (false, see the counterexample): `rLIMIT` clamps whenever the declared range
+    meets the variable's type -/
+def limitIntW_clamps_statement : Prop :=
+  ∀ (ty : CTy) (lo hi : Option Int) (v : Int), ty.InRange v →
+    (∀ l, lo = some l → IntTy.i32.InRange l ∧ l ≤ ty.max) → (∀ h, hi = some h → IntTy.i32.InRange h ∧ ty.min ≤ h) →
+    (∀ l h, lo = some l → hi = some h → l ≤ h) →
+    limitIntW ty lo hi v = limit intOps lo hi v
+
+/-- the trigger: the declared bound is not a value of the type the comparison is made in -/
+def boundOutsidePromoted (ty : CTy) (b : Int) : Bool := !decide (ty.prom.InRange b)
+
+/-- `rParamI(u, rLinear(-1, 10))` on an `unsigned u`: incoming 5 is inside the declared range but
+    `5 < (unsigned)-1`, so `var` becomes `UINT_MAX` and then the maximum: 10 is stored. -/
+theorem limitIntW_clamps_counterexample : ¬ limitIntW_clamps_statement := by
+  intro h
+  have := h .u32 (some (-1)) (some 10) 5 (by decide)
+    (by intro l hl; cases hl; decide) (by intro x hx; cases hx; decide) (by intro l x hl hx; cases hl; cases hx; decide)
+  revert this
+  decide
+
+/-- **limitIntW_clamps_partial**: outside the trigger the repaired `rLIMIT` is the clamp -/
+theorem limitIntW_clamps_partial (ty : CTy) (lo hi : Option Int) (v : Int) (hv : ty.InRange v)
+    (hlo : ∀ l, lo = some l → boundOutsidePromoted ty l = false ∧ l ≤ ty.max)
+    (hhi : ∀ h, hi = some h → boundOutsidePromoted ty h = false ∧ ty.min ≤ h)
+    (hord : ∀ l h, lo = some l → hi = some h → l ≤ h) :
+    limitIntW ty lo hi v = limit intOps lo hi v :=
+  limitIntW_eq_limit ty lo hi v hv
+    (fun l hl => ⟨by have := (hlo l hl).1; simpa [boundOutsidePromoted] using this, (hlo l hl).2⟩)
+    (fun h hh => ⟨by have := (hhi h hh).1; simpa [boundOutsidePromoted] using this, (hhi h hh).2⟩) hord
+
+/-- the trigger never fires for the types below `int`, for `int` and for `long` (bounds come from `atoi`) -/
+theorem boundOutsidePromoted_signed (ty : CTy) (b : Int) (hb : IntTy.i32.InRange b)
+    (hty : ty ≠ .u32 ∧ ty ≠ .u64) : boundOutsidePromoted ty b = false := by
+  unfold IntTy.InRange at hb
+  simp only [IntTy.min, IntTy.max] at hb
+  obtain ⟨h1, h2⟩ := hty
+  unfold boundOutsidePromoted
+  rw [Bool.not_eq_eq_eq_not, Bool.not_false, decide_eq_true_eq]
+  cases ty <;> first | exact absurd rfl h1 | exact absurd rfl h2 |
+    (simp only [CTy.prom, CTy.InRange, CTy.min, CTy.max]; omega)
+
+-- non-vacuity
+/-- metadata of `rParamI(u, rLinear(-1, 10), "d")` -/
+def exBlockU : Bytes :=
+  [58, 112, 97, 114, 97, 109, 101, 116, 101, 114, 0, 58, 109, 105, 110, 0, 61, 45, 49, 0, 58, 109, 97, 120, 0, 61, 49, 48, 0, 58, 115, 99, 97, 108, 101, 0, 61, 108, 105, 110, 101, 97, 114, 0, 58, 100, 111, 99, 117, 109, 101, 110, 116, 97, 116, 105, 111, 110, 0, 61, 100, 0, 0]
+example : (bound atoi (exPm exBlockU) kMin).toOption = some (some (-1)) ∧
+    (bound atoi (exPm exBlockU) kMax).toOption = some (some 10) := by decide
+-- the callback on an `unsigned` field: 5 → 10 (what the compiled macro does, probe in the report)
+example : (intCbW .u32 .u32 Arg.i (exPm exBlockU) exLoc 0 [.i 5]).toOption =
+    some (10, [reply undoAddr [.s exLoc, .i 0, .i 10], broadcast exLoc [.i 10]]) := by decide +kernel
+-- on a `long` field the same declaration clamps: 5 → 5, -7 → -1; a stored 5000000000 is reported as its low 32 bits
+example : (intCbW .i64 .i64 Arg.i (exPm exBlockU) exLoc 0 [.i 5]).toOption =
+    some (5, [reply undoAddr [.s exLoc, .i 0, .i 5], broadcast exLoc [.i 5]]) := by decide +kernel
+example : (intCbW .i64 .i64 Arg.i (exPm exBlockU) exLoc 5000000000 [.i (-7)]).toOption =
+    some (-1, [reply undoAddr [.s exLoc, .i 705032704, .i (-1)], broadcast exLoc [.i (-1)]]) := by decide +kernel
+example : boundOutsidePromoted .u32 (-1) = true ∧ boundOutsidePromoted .i64 (-1) = false ∧
+    boundOutsidePromoted .u16 (-1) = false ∧ CTy.u32.Sub .u32 ∧ CTy.u32.InRange 5 := by
+  refine ⟨by decide, by decide, by decide, CTy.sub_refl _, by decide⟩
 
 
 end Rtosc.Param
